@@ -60,7 +60,7 @@ CLAIMS = {
        "external TOC x min-chunk sizes are built by the real code; an independent reader (footer -> TOC; one gzip member / zstd frame at a time; archive/tar) records the observed "
        "layout with SHA-256 content ids; TLC validates it as a behaviour of Writer.tla (compressed sizes bound from the observation) and the monitor evaluates the formulas on the record alone.",
   design_ref="DESIGN.md 3 (C03), 2.4, 2.5",
-  note="Quick replays ~1000 fixed combinations (all special families: repeated names with different metadata, nested files named like the reserved TOC/landmark entries) plus a seeded sample of the rest; RFC validity of members = the standard decoders accept them; not covered: repeated AppendTar calls on one "
+  note="Quick replays ~1000 fixed combinations (all special families: repeated names with different metadata, nested files named like the reserved TOC/landmark entries, PAX global headers in lossless mode, mtimes before the epoch and beyond year 2262) plus a seeded sample of the rest; RFC validity of members = the standard decoders accept them; not covered: repeated AppendTar calls on one "
        "writer, already-eStargz or zstd-compressed input, xattrs/symlinks/devices; the offset of EMPTY files is not constrained by any C03 formula (a mutant there is spec drift, exit 2).",
   technique="TLA+ transcription + TLC; builder outputs parsed by an independent reader; TLC trace validation + formula-only monitor on the recorded layout"),
  "C18": dict(
@@ -85,7 +85,7 @@ CLAIMS = {
        "descriptors, run through the real handlers, labels.Validate and readers; TLC validates each recorded result against the spec and the monitor evaluates the formulas on the "
        "recorded values alone. Found and fixed: urls.<i> indexed by child position instead of layer position (0e33758).",
   design_ref="DESIGN.md 3 (C20), 2.4, 2.5",
-  note="Strings abstracted to (length, token ids) except six concrete reference shapes that round-trip byte for byte and seven malformed spellings; URL lists landing exactly on the 4094..4097-byte boundary and descriptors with pre-set remote/* annotations are in the edge family; every single removal/emptying of urls / urls.<i> (i<=3) is generated (UrlsOwnOrNone); no ',' in URLs/refs; on the pinned code manifests whose layer descriptors pre-set remote/urls* or prefetch make RoundTrip / PrefetchSizeRoundTrips false for the extra (CRI-labels) flavour (known finding :fl=extra:preset; the exhaustive runs check the repaired design, the pinned design is a negative control); an absent URL list read back as [\"\"] is treated as "
+  note="Strings abstracted to (length, token ids) except six concrete reference shapes that round-trip byte for byte and seven malformed spellings; URL lists landing exactly on the 4094..4097-byte boundary and descriptors with pre-set remote/* annotations are in the edge family; every single removal/emptying of urls / urls.<i> (i<=3) is generated (UrlsOwnOrNone); every case reads the same label map twice (ReaderLeavesLabels, RoundTripSecondRead); one long-family pattern has mixed sha256/sha512 digest lengths; no ',' in URLs/refs; on the pinned code manifests whose layer descriptors pre-set remote/urls* or prefetch make RoundTrip / PrefetchSizeRoundTrips false for the extra (CRI-labels) flavour (known finding :fl=extra:preset; the exhaustive runs check the repaired design, the pinned design is a negative control); an absent URL list read back as [\"\"] is treated as "
        "no URL (only ipfs:// prefixes are consumed downstream); fs.Mount observed at the GetSources boundary. Trusted: TLC, the driver's materialisation.",
   technique="TLA+ transcription + TLC exhaustive enumeration with negative controls; every case replayed through the real handlers/readers; TLC conformance + formula-only monitor"),
  "C17": dict(
@@ -134,7 +134,7 @@ CLAIMS = {
        "TLC trace validation + monitor decide. One known finding (Cleanup on a never-written metadata DB returns NotFound before scanning).",
   design_ref="DESIGN.md 3 (C09), 2.4, 2.5",
   note="bolt commit and rename(2) assumed atomic (no torn writes inside them); a crash during restore or Close only with a dying backend; Close followed by a no-restore start not modelled; "
-       "one caller; every crash class (call, program counter, backend survives?) gets a deterministic crash->Restart->Cleanup walk in quick, on an empty root and on a root with a committed remote snapshot (call budget leaves some second-call crash points of the empty-root graphs uncovered). Trusted: TLC, the projection and crash-image copy in harness/snapshot.",
+       "one caller; every crash class (call, program counter, backend survives?) gets a deterministic crash->Restart->Cleanup walk in quick, on an empty root and on a root with a committed remote snapshot (call budget leaves some second-call crash points of the empty-root graphs uncovered); a remote snapshot directory has three states (absent / present without fs / complete) with tearing crashes inside Close's removal and between the two mkdirs of restore, constructed in the crash image. Trusted: TLC, the projection and crash-image copy in harness/snapshot.",
   technique="TLA+ spec with Crash/Restart actions + TLC exhaustive check; crash-point replay (root directory copied at the marker, restart on the copy); TLC trace validation + property monitor"),
  "C13": dict(
   text="TaskMgr.tla follows task.go step by step: the atomic counter of prioritized tasks, the notify channel replaced under notifyMu (epoch), the delayed-decrement goroutines that "
@@ -199,7 +199,7 @@ CLAIMS = {
        "store's record against the reference and TocMonitor evaluates StoresAgree (accept, digest, tree, attrs, links, chunks, bytes, offsets, clone) on the two records; layers opened "
        "concurrently in one bolt DB under -race are compared with their solo records. Ten genuine differences/defects were found and fixed; one is listed as known.",
   design_ref="DESIGN.md 3 (C05), 2.4, 2.5, 7 items 8-9",
-  note="Bounded: <=3 entries (4 thorough) over 6 paths, plus fixed families: files of 3-12 chunks with chunk offsets crossing the varint byte-order boundaries, names with inner and trailing dot elements; hand-made payload streams; builder-made blobs and the zstd / external-TOC formats are exercised by C02/C03, not here; "
+  note="Bounded: <=3 entries (4 thorough) over 6 paths, plus fixed families: files of 3-12 chunks with chunk offsets crossing the varint byte-order boundaries, names with inner and trailing dot elements, modtime profiles outside the int64-nanosecond range / with zone offsets / sub-second precision, and a clone taken immediately after NewReader of a 6000-entry TOC (EarlyCloneAgree); hand-made payload streams; builder-made blobs and the zstd / external-TOC formats are exercised by C02/C03, not here; "
        "GetAttr(root) before the db parser finishes is timing dependent and not recorded; the one-database stage is decided by the monitor only. Trusted: TLC, the blob concretiser and walk in harness/metadata.",
   technique="TLA+ reference semantics + TLC enumeration with negative controls; 3-way differential replay (reference / memory store / db store) on real blobs; TLC trace validation + StoresAgree monitor; concurrent one-DB runs under -race"),
  "C04": dict(
@@ -250,7 +250,7 @@ CLAIMS = {
        "by the monitor; free-running concurrent calls under -race are decided by the monitor. The db-store './' defect (prefetch never completing) was re-found by this check (fixed under C05).",
   design_ref="DESIGN.md 3 (C15), 2.4, 2.5, 7 item 8",
   note="Quick replays 16 walks per scenario (exhaustive false; thorough covers every edge); chunk cache = directory cache with SyncAdd (with asynchronous persistence a miss in the window is allowed by "
-       "C11); reads go through reader.Reader.OpenFile, not a kernel mount; files are the unit of caching in the spec, with partial reads (ReadPart) of multi-chunk files and a 2.7 MB layer because the readers peek up to 2 MiB; the async-threshold decision is tied to the effective range (WaitNilOnlyIfEndedOrAsync); the task manager is abstract (C13); wait timing checked with 3 s slack; "
+       "C11); reads go through reader.Reader.OpenFile, not a kernel mount; files are the unit of caching in the spec, with partial reads (ReadPart) of multi-chunk files and a 2.7 MB layer because the readers peek up to 2 MiB; the async-threshold decision is tied to the effective range (WaitNilOnlyIfEndedOrAsync); a failing chunk-cache Add is injected as an environment choice (SuccessMeansCached: a step that reports ok has cached what it covers); the task manager is abstract (C13); wait timing checked with 3 s slack; "
        "cfg = 0 and a closed layer not exercised. Trusted: TLC, the recording registry and projection in harness/fs/layer/verif_prefetch.go.",
   technique="TLA+ spec + TLC exhaustive safety and fair liveness checks with negative controls; gated replay of TLC walks on real layers over both metadata stores; TLC trace validation + property monitor; free-running -race runs"),
 }
